@@ -428,6 +428,10 @@ def stage_line_comment(ctx: Ctx, progs):
         after = root.src
         ctx.tick(('lc', hash(before) & 0xffffff, n.lineno, cm), 'put_line_comment')
         B, A = toks(before), toks(after)
+        if B is not None and A is None:
+            sig = 'line-comment-put-before-continuation-semicolon' if edits.stmt_before_continuation_semicolon(before, n) else 'line-comment|untokenizable'
+            ctx.violation(sig, 'the source after put_line_comment no longer tokenizes', {'src': before, 'after': after, 'comment': cm, 'stmt_line': n.lineno})
+            continue
         if B is None or A is None:
             continue
         cb = [key(t) for t in B if t[0] != tokenize.COMMENT and t[1] != ';']   # a statement followed by `;` is split onto its own line
@@ -435,7 +439,8 @@ def stage_line_comment(ctx: Ctx, progs):
         commb = [t[1] for t in B if t[0] == tokenize.COMMENT]
         comma = [t[1] for t in A if t[0] == tokenize.COMMENT]
         if cb != ca:
-            ctx.violation('line-comment|code', 'put_line_comment changed code tokens', {'src': before, 'after': after, 'comment': cm, 'stmt_line': n.lineno})
+            sig = 'line-comment-put-before-continuation-semicolon' if edits.stmt_before_continuation_semicolon(before, n) else 'line-comment|code'
+            ctx.violation(sig, 'put_line_comment changed code tokens', {'src': before, 'after': after, 'comment': cm, 'stmt_line': n.lineno})
             continue
         # at most one comment differs (added / removed / replaced), all others identical and in order
         i = 0
